@@ -160,6 +160,11 @@ def main(pid, run_fn, argv=None):
         use_repo()
         run_fn(ctx)
         rc = finish(ctx)
+        if rc == 0 and ctx.cover.get('canary_failures'):
+            for m in ctx.cover['canary_failures']:
+                print(m[:2000])
+            print('MACHINERY-FAILURE property=%s' % pid)
+            rc = 2
     except Exception:
         traceback.print_exc()
         print('MACHINERY-FAILURE property=%s' % pid)
